@@ -719,6 +719,22 @@ func (h *c20H) do(op *c20Op) (wire, golit string, ok bool) {
 				apiLit = fmt.Sprintf("_ = %s.Has(%s)", gname(op.a), gname(op.b))
 			}
 			apiWire = fmt.Sprintf("(%s %d %d %d)", op.name, op.a, op.b, hv)
+		case "psAddAllSteps":
+			g := h.gk(op.a, "pset")
+			p := h.gk(op.b, "path")
+			if g == nil || p == nil || !c20pathPlain(p.path) {
+				applies = false
+				return
+			}
+			hs := []int{}
+			for i := 1; i <= len(p.path); i++ {
+				hs = append(hs, c20pathHash(p.path[:i]))
+			}
+			g.ps.AddAllSteps(p.path)
+			if len(p.path) > 0 {
+				p.given["psAdd"] = true // retained exactly as by Add
+			}
+			apiWire, apiLit = fmt.Sprintf("(psAddAllSteps %d %d %s)", op.a, op.b, c20ints(hs)), fmt.Sprintf("%s.AddAllSteps(%s)", gname(op.a), gname(op.b))
 		case "psList":
 			g := h.gk(op.a, "pset")
 			if g == nil {
